@@ -151,8 +151,11 @@ impl<R: Read, TSpec> TagIterator<R, TSpec>
             }
 
             self.internal_buffer_position += 1;
-            if self.peek_valid_tag_header().is_ok() {
-                break;
+            match self.peek_valid_tag_header() {
+                Ok(_) => break,
+                // an error of the source is not a reason to keep scanning: report it
+                Err(TagIteratorError::ReadError { source }) => return Err(TagIteratorError::ReadError { source }),
+                Err(_) => {},
             }
         }
 
